@@ -49,6 +49,10 @@ STRUCTS = {2: [[None, 0], [None, None]], 3: [[None, 0, 0], [None, 0, 1], [None, 
 def _gen_params(S, fam, wide=True):
     names, ranges, _ = FAM[fam]
     p = {k: core.r6(S.uni(*ranges[k])) for k in names}
+    if fam == "ExpWeibull" and S.chance(0.2):
+        # small but legal exponent: the mass sits many orders of magnitude below the scale, where a
+        # sampler must not lose precision (log1p / expm1 regime)
+        p["delta"] = core.r6(S.uni(0.05, 0.1))
     if wide and S.chance(0.4):
         f = core.r6(10 ** S.uni(-2, 2))
         for k in SCALE_PARAMS[fam]:
@@ -158,7 +162,14 @@ def generate(prop, seed, tier):
         if sl["kind"] == "model" and S.chance(0.5):
             cds = [i for i, d in enumerate(sl["dims"]) if d["cond_on"] is not None]
             if cds:
-                ops.insert(S.int(0, len(ops)), {"op": "cdraw", "slot": si, "dim": S.pick(cds), "n": S.pick([1, 3, 2000, 5000]), "given": [core.r6(S.uni(0.2, 6.0)) for _ in range(S.int(2, 5))], "rs": {"kind": "int", "seed": S.sub("cd", si)}})
+                cop = {"op": "cdraw", "slot": si, "dim": S.pick(cds), "n": S.pick([1, 3, 2000, 5000]), "given": [core.r6(S.uni(0.2, 6.0)) for _ in range(S.int(2, 5))], "rs": {"kind": "int", "seed": S.sub("cd", si)}}
+                if S.chance(0.4):
+                    # a long vector of conditioning values with ties (the values repeated `tile` times), few
+                    # realisations each: what a joint sample hands to a conditional dimension
+                    cop["given"] = cop["given"][: S.int(1, 3)]
+                    cop["tile"] = S.pick([1500, 4000])
+                    cop["n"] = S.pick([1, 2])
+                ops.insert(S.int(0, len(ops)), cop)
     if not any(o["op"] == "draw" and o["n"] >= 2000 for o in ops):
         ops.append({"op": "draw", "slot": 0, "n": 20000, "rs": {"kind": "int", "seed": S.sub("last")}})
     return {"engine": NAME, "property": prop, "seed": seed, "slots": slots, "gens": gens, "ops": ops}
@@ -311,10 +322,15 @@ def check_shape_support(run, sl, obj, x, n):
     return True
 
 
+def _given_of(op):
+    g = np.array(op["given"], dtype=float)
+    return np.tile(g, op["tile"]) if op.get("tile") else g
+
+
 def check_cdraw(run, sl, model, op, x):
     """ConditionalDistribution.draw_sample(n, given=<vector>): one column per conditioning value"""
     d = sl["dims"][op["dim"]]
-    g = np.array(op["given"], dtype=float)
+    g = _given_of(op)
     want = (op["n"], len(g))
     if x.shape != want:
         run.violate("I1-shape", "conditional-vector-given", {"shape": list(x.shape), "want": list(want)})
@@ -322,6 +338,23 @@ def check_cdraw(run, sl, model, op, x):
     if not np.all(np.isfinite(x)):
         run.violate("I1-finite", "conditional-vector-given", {"n": op["n"]})
         return False
+    if op.get("tile"):
+        # every entry is its own realisation, drawn given the value at its position: the conditional
+        # probability integral transforms of one row are independent uniforms, ties or not
+        dist = model.distributions[op["dim"]]
+        for i in range(x.shape[0]):
+            row = x[i]
+            if d["family"] == "VonMises":
+                row = _wrap_vm(row, np.asarray(dist.conditional_parameters["mu"](g), dtype=float))
+            with np.errstate(all="ignore"):
+                u = np.asarray(dist.cdf(row, given=g), dtype=float)
+            dd = _ks(u)
+            run.count("dkw_comparisons")
+            run.count("probe:tied-conditioning-values")
+            if not dd <= eps_dkw(len(g)):
+                run.violate("I2-conditional-law", f"tied-given/{d['family']}", {"row": i, "distinct_given": len(op["given"]), "entries": len(g), "distinct_realisations": int(len(np.unique(row))), "sup_distance": dd, "eps_dkw": eps_dkw(len(g))})
+                return False
+        return True
     if op["n"] >= 2000:
         dist = model.distributions[op["dim"]]
         for j, gj in enumerate(g):
@@ -409,7 +442,7 @@ def _one_pass(scen, objs, which, on_draw=None):
         rs = op["rs"]
         try:
             if op["op"] == "cdraw":
-                out.append(np.asarray(obj.distributions[op["dim"]].draw_sample(op["n"], np.array(op["given"], dtype=float), random_state=int(rs["seed"]))))
+                out.append(np.asarray(obj.distributions[op["dim"]].draw_sample(op["n"], _given_of(op), random_state=int(rs["seed"]))))
                 if on_draw is not None:
                     on_draw(k, op, out[-1])
                 continue
@@ -461,7 +494,7 @@ def _execute(prop, scen):
             raise
         def on_draw(k, op, x):
             if op["op"] == "cdraw":
-                run.event("cdraw", [op["slot"], op["dim"], op["n"], op["given"]], x)
+                run.event("cdraw", [op["slot"], op["dim"], op["n"], op["given"], op.get("tile")], x)
                 if not check_cdraw(run, scen["slots"][op["slot"]], objs[op["slot"]], op, x):
                     raise StopRun()
                 return
